@@ -115,8 +115,8 @@ _p("C08", "z3 regular-expression inclusion queries on the patterns compiled by t
    "and z3 decides both inclusions against the wildcard semantics of the statement for ALL names (unsat = equal). E-CH: " + CH + ". glob on picked trees/names/patterns vs an independent interpreter: "
    "relaxed set, pre-order list, duplicates rule, strict-mode dead ends, agreement with get, and cache transparency (same call repeated after calls of a resolver with the other ignorecase flag and at cache fill level _MAXCACHE-1).",
    "E-RE: one obligation = one (pattern, ignorecase) pair, two unsat queries; E-CH: one path = (shape, name rotation, component sequence, cache prelude), inside it 6 x n x 2 (x up to 5) glob calls; non-trivial = every path",
-   "E-RE: patterns of length <= 3 over 19 characters; E-CH: trees <= 3 nodes, 6 name rotations, <= 2 components over names/'..'/'.'/''/unknown/'*'/'a*'/'?'/'*b'/'**'/'???'",
-   "E-RE: patterns of length <= 4; E-CH: trees <= 4 nodes, all rotations, <= 3 components", RES_OUT + ["E-RE: case folding only for the alphabet's letters"], COMMON_ASSUME + ["sre parse tree -> z3 regex translation (validated against re on every run)"])
+   "E-RE: patterns of length <= 4 over 19 characters; E-CH: trees <= 3 nodes, 6 name rotations, <= 2 components over names/'..'/'.'/''/unknown/'*'/'a*'/'?'/'*b'/'**'/'???'",
+   "E-RE: patterns of length <= 5; E-CH: trees <= 4 nodes, all rotations, <= 3 components", RES_OUT + ["E-RE: case folding only for the alphabet's letters"], COMMON_ASSUME + ["sre parse tree -> z3 regex translation (validated against re on every run)"])
 PROPS["C08"]["engine"] = "E-RE + E-CH"
 
 _p("C17", "CrossHair/z3 bounded exhaustive lock-step execution of a plain node class and adversarial classes whose special methods record any invocation",
@@ -223,6 +223,8 @@ def obligations(prop, tier):
             else:
                 out.append(_mut("effect4_%s" % cls, "c02_body", {"cls": cls, "N": 4, "exactN": True, "L": 4}, depth=6, bounds="N=4 L<=4"))
                 out.append(_mut("effect5_%s" % cls, "c02_body", {"cls": cls, "N": 5, "exactN": True, "L": 2}, depth=6, bounds="N=5 L<=2"))
+        for cls in ("node", "anynode", "symlink"):
+            out.append(_mut("ctor_%s" % cls, "ctor_body", {"cls": cls, "N": 3 if q else 4, "L": 2}, depth=4, bounds="N<=%d existing nodes, children sequences <= 2" % (3 if q else 4)))
     elif prop == "C03":
         for cls in ("mixin", "light"):
             out.append(_mut("atomic_%s" % cls, "c03_body", {"cls": cls, "N": 3, "L": 3, "faults": "pre", "F": 1}, bounds="N<=3 F<=1|persistent"))
@@ -307,13 +309,13 @@ def obligations(prop, tier):
             out.append(dict(name="roundtrip", module="harness.resolve", body="roundtrip_body", cfg={"N": 5, "strides": 2}, depth=5, bounds="N<=5", picked="separator, pathattr, n, parent vector, name rotation", symbolic="-"))
     elif prop == "C08":
         from smt import glob_regex  # noqa
-        out.append(dict(kind="re", name="component_match", module="smt.glob_regex", body="run_partition", cfg={"L": 3 if q else 4}, bounds="pattern length <= %d, 19-char alphabet, names unbounded" % (3 if q else 4),
+        out.append(dict(kind="re", name="component_match", module="smt.glob_regex", body="run_partition", cfg={"L": 4 if q else 5}, bounds="pattern length <= %d, 19-char alphabet, names unbounded" % (4 if q else 5),
                         picked="pattern, ignorecase", symbolic="the name (z3 String, any length)"))
         if q:
             out.append(dict(name="glob_semantics", module="harness.resolve", body="glob_body", cfg={"N": 3, "L": 2, "rotations": 6}, depth=4, bounds="N<=3 L<=2 6 rotations", picked="n, parent vector, name rotation, components, cache prelude", symbolic="-"))
         else:
             out.append(dict(name="glob_semantics4", module="harness.resolve", body="glob_body", cfg={"N": 4, "L": 2}, depth=5, bounds="N<=4 L<=2 all rotations", picked="same", symbolic="-"))
-            out.append(dict(name="glob_semantics3", module="harness.resolve", body="glob_body", cfg={"N": 3, "L": 3, "rotations": 8}, depth=5, bounds="N<=3 L<=3 8 rotations", picked="same", symbolic="-"))
+            out.append(dict(name="glob_semantics3", module="harness.resolve", body="glob_body", cfg={"N": 3, "L": 3, "rotations": 4}, depth=5, bounds="N<=3 L<=3 4 rotations", picked="same", symbolic="-"))
             out.append(dict(name="glob_semantics_sep", module="harness.resolve", body="glob_body", cfg={"N": 3, "L": 2, "sep": "::"}, depth=4, bounds="N<=3 L<=2 separator '::'", picked="same", symbolic="-"))
     elif prop == "C17":
         pk = "n, parent vector (forest), call, arguments, behaviour of the special methods"
